@@ -152,7 +152,7 @@ class Ctx:
         def one(i):
             cmd = [self.drive_bin, "-p", driver, "-seed", str(self.seed), "-tier", self.tier,
                    "-shards", str(shards), "-shard", str(i)] + [str(a) for a in args]
-            r = subprocess.run(cmd, capture_output=True, text=True, timeout=timeout,
+            r = subprocess.run(cmd, capture_output=True, text=True, timeout=timeout * (3 if self.tier == "thorough" else 1),
                                env=dict(os.environ, GOMAXPROCS="2"))
             if r.returncode != 0:
                 raise Infra("driver %s shard %d failed (rc %d): %s" % (driver, i, r.returncode, r.stderr[-2000:]))
